@@ -593,7 +593,7 @@ type setsCase struct {
 	Pattern string    `json:"pattern"`
 	Opts    int32     `json:"opts"`
 	CodeGen bool      `json:"codegen,omitempty"`
-	Ast     *gen.Node `json:"ast,omitempty"` // for pattern-directed inputs of the search step
+	Ast     *gen.Node `json:"ast,omitempty"`  // for pattern-directed inputs of the search step
 	Text    []rune    `json:"text,omitempty"` // a witness input (corpus)
 	Seed    int64     `json:"seed"`
 	Source  string    `json:"source,omitempty"`
@@ -1185,6 +1185,6 @@ func c04RegisterSets(c *core.Ctx) {
 	core.RunLeg(c, core.Leg[setsCase]{
 		Name: "V", Kind: "correspondence(proved validator)+oracle",
 		Rule: "patterns: the minimised witnesses of every engine defect (both with and without the code-gen analyses) and hand-made shapes, then random full-syntax ASTs (60% the shapes the search modes recognise, 20% the shapes the rewrites look for, 20% unbiased) and harvested patterns, random option sets, code-gen analyses on for half. Each pattern is parsed by syntax.Parse; every published set-valued fact is collected: FixedDistanceSets (the CharSet and, left-to-right, the runner's effective test Chars/Range/Negated; right-to-left the Chars list), FixedDistanceChar, FixedDistanceString (one singleton per rune), LeadingChar right-to-left, FcPrefix, LeadingPrefix (case-sensitive and ordinal-ignore-case: one test per position), LeadingPrefixes (both) and LeadingPrefixFirstRunes. The engine's own tree is converted by gen.FromGoTree and sent to the Lean driver, which returns the proved over-approximations firstSet / setAt k / prefixes of the pattern and of the body of a leading positive lookahead. Check, rune-exact: the intersection of the Lean candidates for the offset is included in the published test, decided on the boundary points (every range end, single rune and Unicode-category transition of either side, ±1; thorough tier: every 100th case also by a sweep of all 1114112 runes, which must agree); a published string list must cover one Lean list under the comparison the runner uses. Theorems published_first_sound / published_set_sound / published_prefixes_sound turn a passed check into soundness of the fact. A failed check starts a search (pattern-directed inputs, every attempt position, each rejected rune forced at the offset of a matching input) for a real match (single-position attempt hook) that contradicts the fact: found → impl-violation with that input; not found → correspondence-break. non-trivial = something set-valued was published and the tree converted",
-		N: c.N(6000, 150000), Corpus: setsCorpus, Gen: g.next, Check: c04SetsCheck, Batch: 1000,
+		N:    c.N(6000, 150000), Corpus: setsCorpus, Gen: g.next, Check: c04SetsCheck, Batch: 1000,
 	})
 }
